@@ -255,3 +255,69 @@ _line_contract("_vertline_dist_missingvalues", True, True, False, True)
 _line_contract("_diagline_dist_missingvalues", False, True, False, True)
 _line_contract("_vertline_dist_sequential_missingvalues", True, True, True, True)
 _line_contract("_diagline_dist_sequential_missingvalues", False, True, True, True)
+
+# ============================================================================ core: grid distances (C12)
+K("_calculate_angular_distance", "core", props=("C12", "C20"),
+  requires=["N>=0", "shape(cos_lat,0)==N", "shape(sin_lat,0)==N", "shape(cos_lon,0)==N", "shape(sin_lon,0)==N",
+            "shape(cosangdist,0)==N", "shape(cosangdist,1)==N"],
+  ghost={"ce": ("int", "int", "float")},
+  defs=["all(ce(a,b)==sin_lat[a]*sin_lat[b]+cos_lat[a]*cos_lat[b]*(sin_lon[a]*sin_lon[b]+cos_lon[a]*cos_lon[b]) "
+        "for a in range(N) for b in range(N))"],
+  ensures=["all(cosangdist[a,b]==ite(ce(a,b)>1, 1, ite(ce(a,b)<-1, -1, ce(a,b))) and cosangdist[b,a]==cosangdist[a,b] "
+           "and -1<=cosangdist[a,b] and cosangdist[a,b]<=1 for a in range(N) for b in range(a+1))"],
+  loops={"i": ["all(cosangdist[a,b]==ite(ce(a,b)>1, 1, ite(ce(a,b)<-1, -1, ce(a,b))) and cosangdist[b,a]==cosangdist[a,b] "
+               "and -1<=cosangdist[a,b] and cosangdist[a,b]<=1 for a in range(i) for b in range(a+1))"],
+         "i.j": ["all(cosangdist[a,b]==ite(ce(a,b)>1, 1, ite(ce(a,b)<-1, -1, ce(a,b))) and cosangdist[b,a]==cosangdist[a,b] "
+                 "and -1<=cosangdist[a,b] and cosangdist[a,b]<=1 for a in range(i) for b in range(a+1))",
+                 "all(cosangdist[i,b]==ite(ce(i,b)>1, 1, ite(ce(i,b)<-1, -1, ce(i,b))) and cosangdist[b,i]==cosangdist[i,b] "
+                 "and -1<=cosangdist[i,b] and cosangdist[i,b]<=1 for b in range(j))"]})
+
+K("_calculate_euclidean_distance", "core", props=("C12", "C20"),
+  requires=["N_dim>=0", "N_nodes>=0", "shape(x,0)==N_dim", "shape(x,1)==N_nodes",
+            "shape(distance,0)==N_nodes", "shape(distance,1)==N_nodes"],
+  ghost={"esq": ("int", "int", "int", "float")},
+  defs=["all(esq(a,b,0)==0 for a in range(N_nodes) for b in range(N_nodes))",
+        "all(esq(a,b,l+1)==esq(a,b,l)+(x[l,a]-x[l,b])*(x[l,a]-x[l,b]) for a in range(N_nodes) for b in range(N_nodes) "
+        "for l in range(N_dim))"],
+  ensures=["all(distance[a,b]==sqrt(esq(a,b,N_dim)) and distance[b,a]==distance[a,b] for a in range(N_nodes) for b in range(a+1))",
+           "all(distance[a,a]==0 for a in range(N_nodes))"],
+  loops={"i": ["all(distance[a,b]==sqrt(esq(a,b,N_dim)) and distance[b,a]==distance[a,b] for a in range(i) for b in range(a+1))",
+               "all(distance[a,a]==0 for a in range(i))"],
+         "i.j": ["all(distance[a,b]==sqrt(esq(a,b,N_dim)) and distance[b,a]==distance[a,b] for a in range(i) for b in range(a+1))",
+                 "all(distance[a,a]==0 for a in range(i))",
+                 "all(distance[i,b]==sqrt(esq(i,b,N_dim)) and distance[b,i]==distance[i,b] for b in range(j))",
+                 "implies(j>i, distance[i,i]==0)"],
+         "i.j.k": ["expr==esq(i,j,k)", "implies(i==j, expr==0)"]})
+
+# ============================================================================ core: geographical rewiring (C17)
+def _rewire_contract(wrapper, cond, with_degree):
+    P = "inline:_randomly_rewire_geomodel"
+    N = "shape(A,0)"
+    simple = ["all(A[a,b]==A[b,a] and (A[a,b]==0 or A[a,b]==1) for a in range(%s) for b in range(%s))" % (N, N),
+              "all(A[a,a]==0 for a in range(%s))" % N]
+    table = ["all(0<=edges[e,0] and edges[e,0]<%s and 0<=edges[e,1] and edges[e,1]<%s and edges[e,0]!=edges[e,1] "
+             "and A[edges[e,0],edges[e,1]]==1 for e in range(E))" % (N, N),
+             # rows are pairwise distinct as unordered pairs
+             "all(not (edges[e,0]==edges[f,0] and edges[e,1]==edges[f,1]) and not (edges[e,0]==edges[f,1] and edges[e,1]==edges[f,0]) "
+             "for e in range(E) for f in range(e))"]
+    degs = ["all(rowsum(A,a)==rowsum(old(A),a) for a in range(%s))" % N]
+    req = ["shape(A,1)==shape(A,0)", "shape(D,0)==shape(A,0)", "shape(D,1)==shape(A,0)", "shape(edges,0)==E",
+           "shape(edges,1)==2", "E>=1"] + simple + table
+    if with_degree:
+        req += ["shape(degree,0)==shape(A,0)"]
+    c1 = ("((abs(D[s,t]-D[k,t])<eps and abs(D[k,l]-D[s,l])<eps) or (abs(D[s,t]-D[s,l])<eps and abs(D[k,l]-D[k,t])<eps))")
+    c2 = ("(abs(D[s,t]-D[s,l])<eps and abs(D[t,s]-D[t,k])<eps and abs(D[k,l]-D[k,t])<eps and abs(D[l,k]-D[l,s])<eps)")
+    accepted = ["s!=k and s!=l and t!=k and t!=l", "A[s,l]==0 and A[t,k]==0", "A[s,t]==1 and A[k,l]==1",
+                c1 if cond == "c1" else c2]
+    if with_degree:
+        accepted.append("degree[s]==degree[k] and degree[t]==degree[l]")
+    inv = simple + table + degs
+    return K(wrapper, "core", props=("C17", "C20"), requires=req,
+             loops={P + ".while": inv + ["shape(edges,0)==E"]},
+             ensures=inv, asserts={"store:A": accepted},
+             checks=("bounds", "narrow", "divzero"))
+
+
+_rewire_contract("_randomly_rewire_geomodel_I", "c1", False)
+_rewire_contract("_randomly_rewire_geomodel_II", "c2", False)
+_rewire_contract("_randomly_rewire_geomodel_III", "c2", True)
